@@ -212,15 +212,6 @@ def compute_attractor_candidates(
         graph_reduced, node_nfvs, child_motifs_reduced
     )
 
-    if len(retained_set) == sd.network.variable_count() and node_is_pseudo_minimal:
-        # If the retained set describes a fixed point, then only one attractor
-        # is present in this space and it must contain the state described by the retained set.
-        if sd.config["debug"]:
-            print(
-                f"[{node_id}] > Singular attractor found through fixed-point retained set. Done."
-            )
-        return [retained_set | node_space]
-
     if not greedy_asp_minification:
         candidate_states = compute_fixed_point_reduced_STG(
             pn_reduced,
